@@ -3,5 +3,7 @@ CONSTANTS
   MaxOps = 4
   MoreOnLast = FALSE
   EofForZeroCols = FALSE
+  Recover = TRUE
+  LeakHeader = FALSE
 INVARIANTS P_C03 P_Shape Emit
 CHECK_DEADLOCK FALSE
